@@ -94,7 +94,22 @@ func (tr *fnTrans) keyedMods(sp *FuncSpec, ev *evalCtx) map[string][]string {
 	out := map[string][]string{}
 	whole := map[string]bool{}
 	for _, m := range sp.Modifies {
+		optional := strings.HasPrefix(m, "?")
+		if optional {
+			m = m[1:]
+		}
 		i := strings.Index(m, "@")
+		if optional && i < 0 {
+			if cn, err := tr.compForModifies(m); err == nil {
+				whole[cn] = true
+			}
+			continue
+		}
+		if optional {
+			if _, err := tr.compForModifies(m[:i]); err != nil {
+				continue
+			}
+		}
 		if i < 0 {
 			if !strings.HasPrefix(m, "rec_") {
 				if cn, err := tr.compForModifies(m); err == nil {
@@ -156,6 +171,14 @@ func (tr *fnTrans) specMods(sp *FuncSpec) []string {
 			addRec(m[4:])
 			continue
 		}
+		if strings.HasPrefix(m, "?") {
+			// optional entry: a component of a package that may not be loaded in this check
+			cn, err := tr.compForModifies(m[1:])
+			if err == nil {
+				add(cn)
+			}
+			continue
+		}
 		cn, err := tr.compForModifies(m)
 		if err != nil {
 			panic(evalErr{fmt.Sprintf("%s: %v", sp.Where, err)})
@@ -195,6 +218,9 @@ func (tr *fnTrans) doCall(ins ssa.Instruction, cc *ssa.CallCommon, asVal ssa.Val
 		nilv := "nil_iface"
 		if args[0].Sort == "RType" {
 			nilv = "rt_nil"
+		}
+		if args[0].Sort == "Ref" {
+			nilv = "nilref"
 		}
 		tr.oblige("nil", fmt.Sprintf("nil.invoke.%s#%d", cc.Method.Name(), n), not(app("=", args[0].S, nilv)), ins.Pos(), nil, "method call on nil interface")
 	} else if cc.StaticCallee() == nil {
@@ -354,6 +380,12 @@ func (tr *fnTrans) bumpClock() {
 }
 
 func (tr *fnTrans) applySpec(sp *FuncSpec, name string, args []Term, sig *types.Signature, p token.Pos) []Term {
+	var res []Term
+	tr.inHome(sp.Where, func() { res = tr.applySpecIn(sp, name, args, sig, p) })
+	return res
+}
+
+func (tr *fnTrans) applySpecIn(sp *FuncSpec, name string, args []Term, sig *types.Signature, p token.Pos) []Term {
 	short := shortCallee(name)
 	n := tr.ord("call." + short)
 	if sp.Flags["unproved"] != "" {
@@ -413,7 +445,19 @@ func (tr *fnTrans) applySpec(sp *FuncSpec, name string, args []Term, sig *types.
 	}
 	// frame
 	if sp.ModAll {
+		// the callee's own call record is maintained exactly by recordCall below
+		keep := map[string]string{}
+		if name := sp.Flags["record"]; name != "" {
+			for _, cn := range tr.allComps() {
+				if strings.HasPrefix(cn, "G:rec_"+name+"_") {
+					keep[cn] = tr.get(tr.cur, cn, tr.compSort[cn])
+				}
+			}
+		}
 		tr.havocAll(tr.cur)
+		for cn, t := range keep {
+			tr.cur.comps[cn] = t
+		}
 	} else {
 		own := ""
 		if name := sp.Flags["record"]; name != "" {
@@ -534,6 +578,11 @@ func (tr *fnTrans) goStmt(x *ssa.Go) {
 	short := shortCallee(name)
 	n := tr.ord("go." + short)
 	ev := &evalCtx{tr: tr, env: env, cur: tr.cur, old: tr.cur}
+	saved := tr.c.home
+	if h := tr.eng.homeOf(sp.Where); h != nil {
+		tr.c.home = h
+	}
+	defer func() { tr.c.home = saved }()
 	for i, r := range sp.Requires {
 		s, err := ev.EvalBool(r.E)
 		if err != nil {
@@ -783,6 +832,11 @@ func (tr *fnTrans) specDecls() string {
 	pure := &fnTrans{eng: tr.eng, c: c, compSort: map[string]Sort{}}
 	var emit func(name string)
 	bodyOf := func(fd *FunDecl) (string, []string, Sort) {
+		saved := c.home
+		if h := tr.eng.homeOf(fd.Where); h != nil {
+			c.home = h
+		}
+		defer func() { c.home = saved }()
 		env := map[string]Term{}
 		var ps []string
 		for _, p := range fd.Params {
